@@ -6,7 +6,7 @@
 (* An observed layout (event):                                                                                  *)
 (*   [text  : input as code points,   width, indent, align \in {"L","R","C","J"}, ovf : Text.Overflows,          *)
 (*    u     : size/unitsPerEm rounded up (glue is stretched in whole font units),                              *)
-(*    lines : << [y, asc, desc, adj, spans : << [x, w, asc, desc, lv : bidi level, t : code points, g : glyph texts] >>] >>,        *)
+(*    ls : line stretch in thousandths,  lines : << [y, asc, desc, bot (= max descent + line gap), adj, spans : << [x, w, asc, desc, lv : bidi level, t : code points, g : glyph texts] >>] >>,        *)
 (*    bounds : <<x0, y0, x1, y1>> (y upwards as Text.Bounds reports it), heights : <<top, bottom>>,              *)
 (*    kp : [ok, items, brk]  the item list / breakpoints of the text (library's own builder and Linebreak),       *)
 (*    bidi : TRUE for mixed-direction text: only the direction-independent clauses are evaluated (lines stacked, *)
@@ -20,7 +20,7 @@
 (* the post-conditions, and simple corruptions of them must be rejected (the conditions are not vacuous).       *)
 EXTENDS KnuthPlass
 
-CONSTANTS LMode,     \* "exh" | "rand" | "bidi" | "para" | "none" : token list generation
+CONSTANTS LMode,     \* "exh" | "exh2" | "rand" | "bidi" | "para" | "none" : token list generation
           NTok,      \* token list length
           NLRand,    \* size of the random subset
           MaxWSel,   \* width selectors 1..MaxWSel (the driver maps them to real widths, see notes/C16.md)
@@ -29,8 +29,9 @@ CONSTANTS LMode,     \* "exh" | "rand" | "bidi" | "para" | "none" : token list g
 VARIABLES sc         \* the scenario: [toks, wsel, align, indent]
 lvars == <<vars, sc>>
 
-SP == 32  NBSP == 160  IDSP == 12288  SHY == 173  HY == 45  NL == 10
-WS == {SP, IDSP, NL}            \* what may be dropped at the end of a line
+SP == 32  NBSP == 160  IDSP == 12288  SHY == 173  HY == 45  NL == 10  CR == 13
+WS == {SP, IDSP, NL, CR}        \* what may be dropped at the end of a line
+NLCh == {NL, CR}                \* explicit line breaks: LF, CR, and CR LF (one break)
 GlueCh == {SP, IDSP}
 
 \* ---- sequences of code points --------------------------------------------------------------------------------
@@ -40,6 +41,8 @@ LineText(ln) == Flat([i \in 1..Len(ln.spans) |-> ln.spans[i].t])
 LineGlyphs(ln) == Flat([i \in 1..Len(ln.spans) |-> ln.spans[i].g])
 AllIn(R, p, q, S) == \A i \in p..q : R[i] \in S
 Count(R, p, q, c) == Cardinality({i \in p..q : R[i] = c})
+\* explicit line breaks among R[p..q]: every CR, and every LF that does not directly follow a CR
+Breaks(R, p, q) == Cardinality({i \in p..q : R[i] = CR \/ (R[i] = NL /\ (i = 1 \/ R[i-1] # CR))})
 IsPrefixAt(T, R, p) == p + Len(T) - 1 <= Len(R) /\ \A i \in 1..Len(T) : R[p + i - 1] = T[i]
 
 \* Exactly-once, in logical order: the input is  T1 D1 T2 D2 .. Tk Dk  with Tj the text of line j and Dj dropped
@@ -52,7 +55,7 @@ DecompG(R, T, p, j, strict) ==
        /\ LET q == p + Len(T[j]) IN
           \E d \in 0..(Len(R) - q + 1) :
              /\ AllIn(R, q, q + d - 1, WS)
-             /\ (strict => Count(R, q, q + d - 1, NL) <= (IF j < Len(T) THEN 1 ELSE 0))
+             /\ (strict => Breaks(R, q, q + d - 1) <= (IF j < Len(T) THEN 1 ELSE 0))
              /\ DecompG(R, T, q + d, j + 1, strict)
 Decomp(R, T, p, j) == DecompG(R, T, p, j, TRUE)
 \* the same without the newline rule: tells "a newline did not start a line" apart from lost / duplicated characters
@@ -63,7 +66,7 @@ GapsOf(R, T, p, j) ==
   IF j > Len(T) THEN <<>>
   ELSE LET q == p + Len(T[j])
            ds == {d \in 0..(Len(R) - q + 1) : /\ AllIn(R, q, q + d - 1, WS)
-                                               /\ Count(R, q, q + d - 1, NL) <= (IF j < Len(T) THEN 1 ELSE 0)
+                                               /\ Breaks(R, q, q + d - 1) <= (IF j < Len(T) THEN 1 ELSE 0)
                                                /\ Decomp(R, T, q + d, j + 1)}
        IN IF ds = {} THEN <<>> ELSE LET d == MinOf(ds) IN <<[from |-> q, len |-> d]>> \o GapsOf(R, T, q + d, j + 1)
 
@@ -91,7 +94,8 @@ LFails(e) ==
   LET R == e.text  k == Len(e.lines)
       T == [j \in 1..k |-> LineText(e.lines[j])]
       ne == {j \in 1..k : Len(e.lines[j].spans) > 0}            \* lines that show something
-      once == Decomp(R, T, 1, 1)
+      once == /\ \A j \in 1..k : \A i \in 1..Len(T[j]) : T[j][i] \notin NLCh      \* a line break character is never shown
+              /\ Decomp(R, T, 1, 1)
       \* soft hyphen: shown as "-" exactly when it ends a line at a break (not decided when white space / the end follows it)
       shy == \A j \in ne : LET t == T[j] g == LineGlyphs(e.lines[j]) IN
                 /\ Len(g) = Len(t)
@@ -103,8 +107,15 @@ LFails(e) ==
                   \A j \in ne : LET t == T[j] g == LineGlyphs(e.lines[j]) IN
                      (Len(g) = Len(t) /\ Len(t) > 0 /\ t[Len(t)] = SHY /\ j <= Len(G)) =>
                         (G[j].len = 0 /\ G[j].from <= Len(R) => g[Len(t)] = HY)
-      stacked == \A j \in 1..k-1 : /\ e.lines[j+1].y > e.lines[j].y
-                                   /\ e.lines[j+1].y - e.lines[j].y >= e.lines[j].desc + e.lines[j+1].asc - 2
+      \* stacked by their line heights: y strictly increasing; with a non-negative line stretch consecutive lines do
+      \* not overlap (distance >= descent + next ascent); and equal line heights give equal distances: two pairs of
+      \* consecutive shown lines with the same (bottom, next ascent) metrics are the same distance apart
+      pairs == {j \in 1..k-1 : j \in ne /\ (j + 1) \in ne}
+      stacked == /\ \A j \in 1..k-1 : /\ e.lines[j+1].y > e.lines[j].y
+                                      /\ (e.ls >= 0 => e.lines[j+1].y - e.lines[j].y >= e.lines[j].desc + e.lines[j+1].asc - 2)
+                 /\ \A j \in pairs, m \in pairs :
+                       (e.lines[j].bot = e.lines[m].bot /\ e.lines[j+1].asc = e.lines[m+1].asc) =>
+                          Abs((e.lines[j+1].y - e.lines[j].y) - (e.lines[m+1].y - e.lines[m].y)) <= 2
       disjoint == \A j \in ne : LET sp == e.lines[j].spans IN
                      IF e.bidi THEN \A i \in 1..Len(sp), m \in 1..Len(sp) : i < m => (Right(sp[i]) <= sp[m].x + 1 \/ Right(sp[m]) <= sp[i].x + 1)
                      ELSE \A i \in 1..Len(sp)-1 : Right(sp[i]) <= sp[i+1].x + 1      \* left-to-right: logical order is x order
@@ -132,7 +143,9 @@ LFails(e) ==
       bounds == \A j \in ne : \A i \in 1..Len(e.lines[j].spans) : LET s == e.lines[j].spans[i] y == e.lines[j].y IN
                    /\ e.bounds[1] <= s.x + 1 /\ Right(s) <= e.bounds[3] + 1
                    /\ e.bounds[2] <= 0 - y - s.desc + 1 /\ 0 - y + s.asc <= e.bounds[4] + 1
-      heights == \A j \in ne : \A i \in 1..Len(e.lines[j].spans) : LET s == e.lines[j].spans[i] y == e.lines[j].y IN
+      \* (with a negative line stretch lines overlap on purpose and a later line may rise above the first one: Heights,
+      \* which reports the top of the first and the bottom of the last line, is then not required to enclose)
+      heights == e.ls < 0 \/ \A j \in ne : \A i \in 1..Len(e.lines[j].spans) : LET s == e.lines[j].spans[i] y == e.lines[j].y IN
                    /\ 0 - e.heights[1] <= y - s.asc + 1 /\ y + s.desc <= e.heights[2] + 1
       general == (IF stacked THEN {} ELSE {"stacking"})
                  \cup (IF disjoint /\ nonneg THEN {} ELSE {"span-overlap"})
@@ -157,7 +170,7 @@ BreakAtRepeatedSpace(e) ==
 SpaceBeforeNewline(e) ==
   LET R == e.text  T == [j \in 1..Len(e.lines) |-> LineText(e.lines[j])]
       G == GapsOf(R, T, 1, 1) IN
-  \E j \in 1..Len(G) : \E i \in G[j].from..(G[j].from + G[j].len - 2) : R[i] \in GlueCh /\ R[i+1] = NL
+  \E j \in 1..Len(G) : \E i \in G[j].from..(G[j].from + G[j].len - 2) : R[i] \in GlueCh /\ R[i+1] \in NLCh
 \* feature (mixed direction): some line starts, in logical order, with a span of embedding level >= 2 (a left-to-right
 \* word at the start of a line of a right-to-left paragraph)
 LineStartsEmbedded(e) == e.bidi /\ \E j \in 1..Len(e.lines) : Len(e.lines[j].spans) > 0 /\ e.lines[j].spans[1].lv >= 2
@@ -171,13 +184,15 @@ LExplain(e) == LET dec == ~e.bidi /\ Decomp(e.text, [j \in 1..Len(e.lines) |-> L
 \* soft hyphens only occur where they are meant to be used: inside words
 Words == {"on", "women", "wo_men", "new2", "ne_w2"}
 Toks == Words \cup {"sp", "nbsp", "idsp", "hy", "nl"}
+Toks2 == Toks \cup {"crlf", "cr"}        \* CR LF (one line break) and a lone CR
 \* "bidi": a right-to-left paragraph (starts with a Hebrew word) that contains left-to-right words in both faces
 BidiToks == {"heb", "sp", "on", "new2"}
 BidiOK(f) == f[1] = "heb" /\ (\E i \in DOMAIN f : f[i] = "on") /\ (\E i \in DOMAIN f : f[i] = "new2")
 \* "para": NTok words separated by single spaces, justified, absolute narrow widths (selectors 7..10 = 20..23 mm)
 Interleave(f) == [i \in 1..(2 * NTok - 1) |-> IF i % 2 = 1 THEN f[(i + 1) \div 2] ELSE "sp"]
 TokLists == IF LMode = "exh" THEN [1..NTok -> Toks]
-            ELSE IF LMode = "rand" THEN RandomSubset(NLRand, [1..NTok -> Toks])
+            ELSE IF LMode = "exh2" THEN [1..NTok -> Toks2]
+            ELSE IF LMode = "rand" THEN RandomSubset(NLRand, [1..NTok -> Toks2])
             ELSE IF LMode = "bidi" THEN {f \in (IF NLRand = 0 THEN [1..NTok -> BidiToks] ELSE RandomSubset(NLRand, [1..NTok -> BidiToks])) : BidiOK(f)}
             ELSE IF LMode = "para" THEN {Interleave(f) : f \in RandomSubset(NLRand, [1..NTok -> Words])}
             ELSE {}
@@ -230,13 +245,13 @@ ModelEvent(s) ==
                    g == IF hyph THEN SubSeq(t, 1, Len(t) - 1) \o <<HY>> ELSE t
                    lw == AdvSum(R, p, q) + (IF hyph THEN 1 ELSE 0)
                    x0 == (IF s.align = "R" THEN w - lw - (IF j = 1 THEN ind ELSE 0) ELSE 0) + (IF j = 1 THEN ind ELSE 0)
-               IN [y |-> 3 * j, asc |-> 2, desc |-> 1, adj |-> 0, lw |-> lw,
+               IN [y |-> 3 * j, asc |-> 2, desc |-> 1, bot |-> 1, adj |-> 0, lw |-> lw,
                    spans |-> IF q < p THEN <<>> ELSE <<[x |-> x0, w |-> lw, asc |-> 2, desc |-> 1, t |-> t, g |-> g]>>]
       ls == [j \in 1..Len(segs) |-> mk(j)]
       over == \E j \in 1..Len(ls) : ls[j].lw + (IF j = 1 THEN ind ELSE 0) > w
       xs == {ls[j].spans[1].x : j \in {j \in 1..Len(ls) : ls[j].spans # <<>>}} \cup {0}
       rs == {Right(ls[j].spans[1]) : j \in {j \in 1..Len(ls) : ls[j].spans # <<>>}} \cup {0}
-  IN [k |-> 0, text |-> R, width |-> w, indent |-> ind, align |-> s.align, ovf |-> over, u |-> 0, lines |-> ls,
+  IN [k |-> 0, text |-> R, width |-> w, indent |-> ind, align |-> s.align, ovf |-> over, u |-> 0, ls |-> 0, lines |-> ls,
       bounds |-> <<MinOf(xs), 0 - 3 * Len(ls) - 1, CHOOSE v \in rs : \A z \in rs : z <= v, 0>>,
       heights |-> <<0, 3 * Len(ls) + 1>>,
       kp |-> [ok |-> FALSE, brk |-> <<>>], bidi |-> FALSE]
